@@ -1,6 +1,9 @@
 //! Request generators, one module per property: a deterministic coverage core (independent of the
 //! seed) followed by the seeded random stream.
 
+pub mod c03;
+pub mod c06;
+pub mod c07;
 pub mod c14;
 pub mod c15;
 pub mod c18;
@@ -71,6 +74,9 @@ pub fn nontrivial_tensor(t: &Tensor) -> bool {
 
 pub fn generate(g: &mut Gen) {
     match g.ctx.prop.clone().as_str() {
+        "C03" => c03::generate(g),
+        "C06" => c06::generate(g),
+        "C07" => c07::generate(g),
         "C14" => c14::generate(g),
         "C15" => c15::generate(g),
         "C18" => c18::generate(g),
